@@ -19,7 +19,7 @@ NUMTYPE_BAD = ['Int32', 'INT8', 'int33', 'float', 'int', 'f8', 'i8', '<f8', 'dou
 BYTEORDER_BAD = ['Little', 'BIG', 'litle', 'le', '<', '>', 'native', '=', '', 'little ', 0, None, ['little'], True]
 ARRAYORDER_BAD = ['c', 'f', 'K', 'A', 'CF', '', 'C ', 'row', 0, None, ['C'], True]
 SHAPE_BAD = ['scalar', 'string', 'floats', 'float_first', 'negative', 'neg_all', 'nested', 'null', 'dict', 'str_items', 'none_item']
-KEYS_ARRAY = ['numtype', 'byteorder', 'shape', 'arrayorder', 'darrversion']
+KEYS_ARRAY = ['numtype', 'byteorder', 'shape', 'arrayorder']   # without these the data cannot be interpreted
 NOTJSON = ['', '{', '{"numtype": "int32", ', 'not json at all', '\x00\x01\x02', "{'numtype': 'int32'}", '{"a": 1} trailing']
 NOTDICT = ['[]', '[1, 2]', '"a string"', '5', 'null', 'true', '[{"numtype": "int8"}]', '<pairs>', '<pairs>']
 
@@ -27,12 +27,12 @@ NOTDICT = ['[]', '[1, 2]', '"a string"', '5', 'null', 'true', '[{"numtype": "int
 def gen_corruption(rng, ragged):
     target = rng.choice(['values', 'indices', 'values', 'indices', 'top']) if ragged else '.'
     if target == 'top':
-        what = rng.choice(['descr_missing', 'descr_notjson', 'descr_notdict', 'key_removed_darrobject', 'darrobject_unknown'])
+        what = rng.choice(['descr_missing', 'descr_notjson', 'descr_notdict'])
         c = {'target': target, 'what': what}
     else:
         what = rng.choice(['descr_missing', 'descr_notjson', 'descr_notdict', 'key_removed', 'key_removed',
                            'numtype_bad', 'byteorder_bad', 'arrayorder_bad', 'shape_bad', 'shape_bad',
-                           'len_delta', 'len_delta', 'len_delta', 'numtype_swap', 'key_removed_darrobject'])
+                           'len_delta', 'len_delta', 'len_delta', 'numtype_swap'])
         c = {'target': target, 'what': what}
     if what == 'descr_notjson':
         c['text'] = rng.choice(NOTJSON)
